@@ -344,8 +344,10 @@ class Check:
         ev = {"property_id": self.pid, "tier": self.tier, "seed": self.seed, "level": "model_checking",
               "coverage": cov, "assumptions": self.assumptions, "wall_s": round(wall, 2),
               "violations": len(unlisted)}
-        os.makedirs(EVIDENCE, exist_ok=True)
-        with open(os.path.join(EVIDENCE, self.pid + ".json"), "w") as fh:
+        # evidence describes /repo itself; a run against another tree (--repo: mutants, scratch copies) must not overwrite it
+        evdir = EVIDENCE if os.path.realpath(self.repo) == "/repo" else os.path.join(tlc.WORK, "evidence-other-tree")
+        os.makedirs(evdir, exist_ok=True)
+        with open(os.path.join(evdir, self.pid + ".json"), "w") as fh:
             json.dump(ev, fh, indent=1, default=str)
         shutil.rmtree(self.work, ignore_errors=True)
         for l in out_lines:
